@@ -516,7 +516,7 @@ theorem capSets_step (n ty : Nat) (b rest : Bytes) (hty : ty < 65536) (hb : b.le
     (hsz : ∀ ls, capSizes.lookup ty = some ls → (b.length + 4) ∈ ls) :
     capSets (n + 1) (capWire ty b ++ rest) = capSets n rest := by
   have e : capWire ty b ++ rest = le16 ty ++ (le16 (b.length + 4) ++ (b ++ rest)) := by
-    simp [capWire, Global.le16, le16, List.append_assoc]
+    simp [capWire, le16, le16, List.append_assoc]
   rw [e]
   conv => lhs; unfold capSets
   simp only [bind, Except.bind]
@@ -546,13 +546,13 @@ theorem c04_confirmActive_strict (c : GClient) (hn : c.name.length < 60000) (hu 
   have li := inpBytes_length c.layout
   have hcw : (capsWire c b3 b4 b5 b6 b8 b9 b10 b11 b12).length = 376 := by
     simp only [capsWire, capWire, List.flatten_cons, List.flatten_nil, List.length_append, List.length_nil,
-      Global.le16_length, lg, lb, li, l3, l4, l5, l6, l8, l9, l10, l11, l12]
+      Global.gle16_length, lg, lb, li, l3, l4, l5, l6, l8, l9, l10, l11, l12]
   have hbody : (caBody c b3 b4 b5 b6 b8 b9 b10 b11 b12).length = c.name.length + 390 := by
-    simp only [caBody, List.length_append, Global.le16_length, Global.le32_length, hcw]; omega
+    simp only [caBody, List.length_append, Global.gle16_length, Global.gle32_length, hcw]; omega
   -- share control header
-  have e1 : Global.le16 (c.name.length + 396) ++ Global.le16 0x13 ++ Global.le16 c.userId ++ caBody c b3 b4 b5 b6 b8 b9 b10 b11 b12
+  have e1 : le16 (c.name.length + 396) ++ le16 0x13 ++ le16 c.userId ++ caBody c b3 b4 b5 b6 b8 b9 b10 b11 b12
       = le16 (c.name.length + 396) ++ (le16 0x13 ++ (le16 c.userId ++ caBody c b3 b4 b5 b6 b8 b9 b10 b11 b12)) := by
-    simp [Global.le16, le16, List.append_assoc]
+    simp [le16, le16, List.append_assoc]
   have htot : (le16 (c.name.length + 396) ++ (le16 0x13 ++ (le16 c.userId ++ caBody c b3 b4 b5 b6 b8 b9 b10 b11 b12))).length
       = c.name.length + 396 := by simp [hbody]; omega
   rw [e1]
@@ -568,7 +568,7 @@ theorem c04_confirmActive_strict (c : GClient) (hn : c.name.length < 60000) (hu 
   have e2 : caBody c b3 b4 b5 b6 b8 b9 b10 b11 b12 =
       le32 (c.shareId.getD 0) ++ (le16 0x03EA ++ (le16 c.name.length ++ (le16 380 ++ (c.name ++ (le16 12 ++ (le16 0 ++
         capsWire c b3 b4 b5 b6 b8 b9 b10 b11 b12)))))) := by
-    simp [caBody, Global.le16, Global.le32, le16, le32, List.append_assoc]
+    simp [caBody, le16, le32, le16, le32, List.append_assoc]
   rw [e2]
   unfold Strict.confirmActive
   simp only [bind, Except.bind]
